@@ -2135,6 +2135,21 @@ func c12RandomCase(ctx *core.Ctx, d interface {
 	var convRows []parquet.Row
 	var chunkCols [][]parquet.Value
 	addedKey := "" // key of the added-column failure seen on the convert-rows path, if any
+	// the Lean mirror of conversion.Convert on every row, asked before the paths run: besides the
+	// L2 comparison below it states which levels the recorded defect F19 gives an added column, so
+	// that a wrong added column is filed under F19 only when it shows those (c12_adddrop.go)
+	var mirrorAns []string
+	var mirrorErr error
+	var borrowed *c12Borrowed
+	if d != nil && tg.what != "type-string-to-int64" {
+		reqs := make([]string, nrows)
+		for i := range reqs {
+			reqs[i] = "convert.run " + srcText + " " + tgtText + " " + valTexts[i]
+		}
+		if mirrorAns, mirrorErr = d.AskMany(reqs); mirrorErr == nil {
+			borrowed = c12ParseBorrowed(mirrorAns, len(c.tleaves))
+		}
+	}
 	for _, p := range c12Paths {
 		at(p.name, tg.mode, detail(nil))
 		out, err := c12Guard(func() (*c12Out, error) { return p.run(ctx, c) })
@@ -2237,11 +2252,15 @@ func c12RandomCase(ctx *core.Ctx, d interface {
 		// which columns differ: added ones, shared ones
 		firstAdded, firstShared := -1, -1
 		sharedToggled := false
+		var addedDiffer []int
 		for ci, lf := range c.tleaves {
 			if reflect.DeepEqual(want[ci], out.cols[ci]) || (len(want[ci]) == 0 && len(out.cols[ci]) == 0) {
 				continue
 			}
 			added, _, toggled := c12AddedShape(src, tgt, lf.path)
+			if added {
+				addedDiffer = append(addedDiffer, ci)
+			}
 			if added && firstAdded < 0 {
 				firstAdded = ci
 			}
@@ -2259,7 +2278,12 @@ func c12RandomCase(ctx *core.Ctx, d interface {
 		case firstAdded >= 0 && (firstShared < 0 || p.chunks):
 			// (on the column-chunk paths a short added column also misaligns the rows)
 			key, col = c12AddedKey(p, c, firstAdded), firstAdded
-			if p.name == "convert-rows" {
+			if !p.chunks {
+				// F19 only when the column shows the borrowed levels; anything else is keyed by
+				// what it shows
+				key, col = c12AddedRowKey(p, c, addedDiffer, out.cols, expRows, borrowed, out.order)
+			}
+			if p.name == "convert-rows" && !strings.HasPrefix(key, c12NotBorrowedPrefix) {
 				addedKey = key
 			}
 		case firstShared >= 0:
@@ -2341,11 +2365,7 @@ func c12RandomCase(ctx *core.Ctx, d interface {
 			}
 		}
 	}
-	reqs := make([]string, nrows)
-	for i := range reqs {
-		reqs[i] = "convert.run " + srcText + " " + tgtText + " " + valTexts[i]
-	}
-	ans, err := d.AskMany(reqs)
+	ans, err := mirrorAns, mirrorErr
 	if err != nil {
 		ctx.Fail("L2", "driver-error", err.Error(), nil)
 		return
